@@ -244,6 +244,9 @@ func (p *ntsPeer) ntsReply(req []byte, mode int64, cookieLens []int64) []byte {
 		}
 	}()
 	if uid == nil {
+		if debugOn {
+			note(fmt.Sprintf("ntsReply: request of %d bytes does not decode", len(req)))
+		}
 		return hdr
 	}
 	var plain []byte
